@@ -24,7 +24,7 @@ use serde::{Deserialize, Serialize};
 use serde_json::Value;
 use std::collections::HashMap;
 
-pub const FORMATS: [&str; 6] = ["yaml", "json", "bin", "file.yaml", "file.json", "file.bin"];
+pub const FORMATS: [&str; 12] = ["yaml", "json", "bin", "file.yaml", "file.json", "file.bin", "to_str(yml)/from_str(.YAML)", "to_str(.JSON)/from_str(json)", "to_bincode/from_reader(.bin)", "file.yml/from_reader(YML)", "file.JSON", "file.BIN"];
 
 #[derive(Serialize, Deserialize, Clone, Debug)]
 pub struct C17Case {
@@ -67,13 +67,28 @@ fn tmp(ext: &str) -> std::path::PathBuf {
     dir.join(format!("obj-{}-{}.{}", std::process::id(), tid, ext))
 }
 
+/// file extension / format string spelling used by route `fmt` (family = fmt % 3).  Routes
+/// 0-5: `to_yaml` / `to_json` / `to_bincode` and `to_file` with the canonical lower-case
+/// extensions; routes 6-11: the other advertised entry points (`to_str` / `from_str`,
+/// `from_reader`) and the other accepted spellings (`yml`, upper case, leading dot)
+fn ext_of(fmt: u8, writing: bool) -> &'static str {
+    match (fmt, writing) {
+        (9, _) => "yml",
+        (10, _) => "JSON",
+        (11, _) => "BIN",
+        (f, _) => ["yaml", "json", "bin"][f as usize % 3],
+    }
+}
+
 pub fn save<T: SerdeAPI>(x: &T, fmt: u8) -> Result<Vec<u8>, String> {
     match fmt {
         0 => x.to_yaml().map(|s| s.into_bytes()).map_err(|e| format!("{e:#}")),
         1 => x.to_json().map(|s| s.into_bytes()).map_err(|e| format!("{e:#}")),
-        2 => x.to_bincode().map_err(|e| format!("{e:#}")),
+        2 | 8 => x.to_bincode().map_err(|e| format!("{e:#}")),
+        6 => x.to_str("yml").map(|s| s.into_bytes()).map_err(|e| format!("{e:#}")),
+        7 => x.to_str(".JSON").map(|s| s.into_bytes()).map_err(|e| format!("{e:#}")),
         f => {
-            let p = tmp(["yaml", "json", "bin"][(f as usize - 3) % 3]);
+            let p = tmp(ext_of(f, true));
             x.to_file(&p).map_err(|e| format!("{e:#}"))?;
             let b = std::fs::read(&p).map_err(|e| e.to_string())?;
             // saving over an existing, longer file (a results file written again, a rolling
@@ -97,8 +112,12 @@ pub fn load<T: SerdeAPI>(bytes: &[u8], fmt: u8) -> Result<T, String> {
         0 => T::from_yaml(String::from_utf8_lossy(bytes)).map_err(|e| format!("{e:#}")),
         1 => T::from_json(String::from_utf8_lossy(bytes)).map_err(|e| format!("{e:#}")),
         2 => T::from_bincode(bytes).map_err(|e| format!("{e:#}")),
+        6 => T::from_str(String::from_utf8_lossy(bytes), ".YAML").map_err(|e| format!("{e:#}")),
+        7 => T::from_str(String::from_utf8_lossy(bytes), "json").map_err(|e| format!("{e:#}")),
+        8 => T::from_reader(std::io::Cursor::new(bytes), ".bin").map_err(|e| format!("{e:#}")),
+        9 => T::from_reader(std::io::Cursor::new(bytes), "YML").map_err(|e| format!("{e:#}")),
         f => {
-            let p = tmp(["yaml", "json", "bin"][(f as usize - 3) % 3]);
+            let p = tmp(ext_of(f, false));
             std::fs::write(&p, bytes).map_err(|e| e.to_string())?;
             let r = T::from_file(&p).map_err(|e| format!("{e:#}"));
             let _ = std::fs::remove_file(&p);
@@ -241,7 +260,7 @@ fn mutated_trips<T: SerdeAPI + PartialEq + Serialize>(x: &T, case: &C17Case, fmt
 }
 
 fn round_trip<T: SerdeAPI + PartialEq + Serialize>(x: &T, fmt: u8, kind: &str, cx: &mut Ctx) -> Option<T> {
-    let f = FORMATS[fmt as usize % 6];
+    let f = FORMATS[fmt as usize % 12];
     let fam = ["yaml", "json", "bin"][fmt as usize % 3];
     let y1 = match catch(|| save(x, fmt)) {
         Err(p) => {
@@ -510,7 +529,7 @@ pub struct C17;
 impl C17 {
     fn gen(g: &mut Gen, tier: Tier) -> C17Case {
         let kind = g.int(0, KINDS.len() as i64 - 1) as u8;
-        let fmt = g.int(0, 5) as u8;
+        let fmt = g.int(0, 11) as u8;
         let state = g.weighted(&[2, 3, 5]) as u8;
         let total = g.usize(5, 40);
         let k = g.usize(0, total);
@@ -562,7 +581,7 @@ impl C17 {
 
     fn check(case: &C17Case, cx: &mut Ctx) {
         let kind = KINDS[case.kind as usize % KINDS.len()];
-        let fmt = case.fmt % 6;
+        let fmt = case.fmt % 12;
         cx.label(&format!("kind:{kind}"));
         cx.label(&format!("fmt:{}", FORMATS[fmt as usize]));
         cx.label(["state:default", "state:generated", "state:mid-run"][case.state as usize % 3]);
